@@ -5,7 +5,7 @@
    Partial: positive semi-definiteness of the five stationary kernels (Bochner's theorem) is not
    provable with the installed libraries; it is tested numerically as support only. *)
 From Coq Require Import Reals List ZArith Lra.
-From MellonV Require Import ALists AKernels AKExpr ACovFunc AListsFacts ADocumented ADistThm AKernelsThm APsdThm ASchurBridge.
+From MellonV Require Import ALists AKernels AKExpr ACovFunc AListsFacts ADocumented ADistThm AKernelsThm APsdThm ASchurBridge APsdLimit ABochnerThm ABochnerFinal.
 Import ListNotations.
 Open Scope R_scope.
 
@@ -173,6 +173,24 @@ Theorem C05_keval_psd_bochner_only_partial :
   forall e, psd_shape e -> psd (keval e).
 Proof. exact keval_psd_bochner_only. Qed.
 Print Assumptions C05_keval_psd_bochner_only_partial.
+
+(* For two of the six base kernels the hypothesis is discharged.  Linear: the Gram matrix is X X^T / ls.
+   ExpQuad: exp(<x,y>/ls^2) is the pointwise limit of the partial sums of the exponential series, each a non-negative
+   combination of entry-wise powers of the linear Gram matrix (Schur product theorem); the Gaussian kernel is
+   f(x) f(y) exp(<x,y>/ls^2) times the positive constant exp(-1e-12 / (2 ls^2)).  Points of any (even unequal) lengths. *)
+Theorem C05_linear_gram_psd : forall ls, 0 < ls -> psd (base_k BLinear ls).
+Proof. exact psd_linear. Qed.
+Print Assumptions C05_linear_gram_psd.
+
+Theorem C05_expquad_gram_psd : forall ls, 0 < ls -> psd (base_k BExpQuad ls).
+Proof. exact psd_expquad. Qed.
+Print Assumptions C05_expquad_gram_psd.
+
+(* every expression tree over linear and ExpQuad kernels (sums, products, non-negative scalars, any depth, any
+   active_dims) has positive semi-definite Gram matrices: no hypothesis left *)
+Theorem C05_keval_psd_gaussian_linear : forall e, psd_shape e -> gaussian_linear_only e -> psd (keval e).
+Proof. exact keval_psd_gaussian_linear. Qed.
+Print Assumptions C05_keval_psd_gaussian_linear.
 
 (* ---- non-vacuity of the hypotheses used above *)
 Example C05_nonvacuous :
